@@ -309,6 +309,16 @@ def hessian_layout(run, with_reader=True):
         if bad:
             run.notes.append("Hessian layout composition lemma not proved: %s" % (bad,))
             failed += [type("L", (), {"name": "lemma/Hessian layout", "clause": bad[0][0], "status": "unknown", "backend": "z3", "goal": "", "pc": [], "model": bad[0][1]})()]
+    # which Hessian is written: in the retry branches the matrix that goes into the file is the one whose diagonal became Fisher_diag
+    from contracts import c_fisher as _cf
+    hs = structural_generic(run, ["fitting/test_all_Fisher.py"], _cf.hessian_source_obligations, "contracts.c_fisher (AST data flow)",
+                            "the Hessian handed to the matching stage is the one the unique function's own code length was computed from")
+    for fq_, desc_, line_ in hs:
+        class _O:            # reported like an undischarged obligation of the layout group
+            pass
+        o_ = _O()
+        o_.name, o_.clause, o_.status, o_.backend, o_.goal, o_.pc, o_.model, o_.fn = "hessian-source@%d" % line_, desc_, "refuted", "AST data flow", desc_, [], None, "test_all_Fisher.convert_params"
+        failed.append(o_)
     run.assume("A-ext: np.triu_indices(n) enumerates the upper triangle row by row ((r, c) at position r n - r (r - 1) / 2 + c - r); validated at run time",
                "both stages use the number of parameter columns of negloglike_comp<c>.dat as max_param (read off the two call sites: params_proc.shape[1], params_meas.shape[1])")
     return failed
